@@ -110,12 +110,12 @@ Proof.
       rewrite Hix. cbn [gbind].
       destruct (num_ok c) eqn:Eok.
       * exists (CNext i). split.
-        { unfold num_ok, is_digit, ch_dot in Eok. split_if; [exfalso; lia|reflexivity]. }
+        { unfold num_ok, is_digit, ch_dot in Eok. repeat (cbn [gbind]; try split_if); first [reflexivity | exfalso; lia]. }
         eexists. split; [reflexivity|]. split; [|lia]. split; [lia|].
         replace (Z.to_nat (i + 1 - 1)) with (S (Z.to_nat (i - 1))) by lia.
         rewrite (firstn_snoc_nth _ _ _ Hn), forallb_app, Hpre. cbn [forallb]. rewrite Eok. reflexivity.
       * exists (CRet false). split.
-        { unfold num_ok, is_digit, ch_dot in Eok. split_if; [reflexivity|exfalso; lia]. }
+        { unfold num_ok, is_digit, ch_dot in Eok. repeat (cbn [gbind]; try split_if); first [reflexivity | exfalso; lia]. }
         split; [reflexivity|].
         destruct (forallb num_ok mid) eqn:Em; [|reflexivity].
         rewrite forallb_forall in Em. rewrite <- Eok. symmetry. apply Em.
